@@ -16,8 +16,8 @@
       → #<idx> <reply> S=<live store over init keys and KEYS>
         reply = int:<n> | bulk:<hex> | nil | status | err
 
-    ticker <idx> <L|F> <R ms> <n ticks> <script: ok|nl|err|ld|fl,…|.>
-      → #<idx> calls=<ms,…|.> closed=<ms>:<errclass>|never      (cmd/syncer.go clusterTicker)
+    ticker <idx> <L|F> <R ms> <lease ms> <campaign sent … ms before start> <n ticks> <script: ok|nl|err|ld|fl|blk,…|.>
+      → #<idx> calls=<ms,…|.> closed=<ms>:<errclass>|never returned=<ms>|never      (cmd/syncer.go clusterTicker)
     ident <idx> <cluster 0|1> <listen hex> <listenPeer hex>
       → #<idx> id=<hex> | refused                                (election identity)
     leasettl <idx> <lease ns> <renew ns>                         (real run(): ttl written to the store, ticker period)
@@ -165,20 +165,23 @@ def handle : List String → Option (List String)
   | ["requests", idx] =>
     -- the model's calls: one EVAL per Campaign/Renew/Resign, one GET per Leader
     some [s!"#{idx} campaign=EVAL renew=EVAL leader=GET resign=EVAL"]
-  | ["ticker", idx, role, r, n, script] =>
+  | ["ticker", idx, role, r, lease, ago, n, script] =>
     let parse : String → Option TRes := fun
       | "ok" => some .ok | "nl" => some .notLeader | "err" => some .err
-      | "ld" => some .leader | "fl" => some .follower | _ => none
+      | "ld" => some .leader | "fl" => some .follower | "blk" => some .blk | _ => none
     let toks := if script == "." then [] else script.splitOn ","
-    match r.toNat?, n.toNat?, toks.mapM parse with
-    | some r, some n, some sc =>
-      let o := tickerRun (role == "L") r n sc
+    match r.toNat?, lease.toNat?, ago.toNat?, n.toNat?, toks.mapM parse with
+    | some r, some lease, some ago, some n, some sc =>
+      let o := tickerRun (role == "L") r (leaseHoldMs lease r) ago n sc
       let calls := if o.calls.isEmpty then "." else ",".intercalate (o.calls.map toString)
       let closed := match o.closed with
         | some (t, e) => s!"{t}:{errStr e}"
         | none => "never"
-      some [s!"#{idx} calls={calls} closed={closed}"]
-    | _, _, _ => some [s!"#{idx} bad-op"]
+      let ret := match o.returned with
+        | some t => toString t
+        | none => "never"
+      some [s!"#{idx} calls={calls} closed={closed} returned={ret}"]
+    | _, _, _, _, _ => some [s!"#{idx} bad-op"]
   | ["ident", idx, cl, listen, peer] =>
     match Hex.decode listen, Hex.decode peer with
     | some l, some p =>
